@@ -48,6 +48,16 @@ fn main() {
         "thorough" => Tier::Thorough,
         _ => usage(),
     };
+    common::install_panic_probe();
+    let tier_name = args[2].clone();
+    let prop_name = prop.to_string();
+    let r = std::panic::catch_unwind(std::panic::AssertUnwindSafe(|| dispatch(&prop_name, tier)));
+    if r.is_err() {
+        common::escaped_panic(prop, &tier_name);
+    }
+}
+
+fn dispatch(prop: &str, tier: Tier) {
     match prop {
         "C01" => geo2::c01(tier),
         "C03" => geo2::c03(tier),
